@@ -1,11 +1,11 @@
-use ignore::WalkBuilder;
 use serde::Deserialize;
 use serde_json::json;
 
 use crate::{ToolInvocation, ToolOutput};
 
 use super::{
-    build_globset, globsets_match, normalize_rel_path, parse_args, resolve_path, BuiltinToolConfig,
+    build_globset, globsets_match, normalize_rel_path, parse_args, resolve_path,
+    workspace_walk_builder, BuiltinToolConfig,
 };
 
 #[derive(Deserialize)]
@@ -45,7 +45,7 @@ pub(super) fn run_ls(invocation: ToolInvocation, config: &BuiltinToolConfig) -> 
         Err(err) => return ToolOutput::invalid_args(err),
     };
 
-    let mut builder = WalkBuilder::new(&root_path);
+    let mut builder = workspace_walk_builder(&config.workspace_root, &root_path);
     builder
         .hidden(!include_hidden)
         .follow_links(follow_symlinks);
